@@ -55,6 +55,9 @@ pub enum BorrowerExec {
     Run { script: Vec<Step> },
     /// internal: self-call wrapper for a swallowed action
     Guard { id: u64, step: Box<Step> },
+    /// internal: self-call wrapper that builds the action's messages when it is dispatched, not when the script starts
+    /// (a repayment that follows other actions asks for its quote after those actions have run)
+    Lazy { step: Box<Step> },
     /// top-level helper: ask the borrower to take a loan itself
     Start { vault: String, amount: Uint128, script: Vec<Step> },
 }
@@ -192,14 +195,21 @@ fn borrower_execute(deps: DepsMut, env: Env, _info: MessageInfo, msg: BorrowerEx
             .into();
             Ok(Response::new().add_message(m))
         }
+        BorrowerExec::Lazy { step } => {
+            let msgs = act_msgs(deps.as_ref(), &env, &step.act)?;
+            Ok(Response::new().add_messages(msgs).add_attribute("borrower", "lazy"))
+        }
         BorrowerExec::Guard { id: _, step } => {
             let msgs = act_msgs(deps.as_ref(), &env, &step.act)?;
             Ok(Response::new().add_messages(msgs).add_attribute("borrower", "guard"))
         }
         BorrowerExec::Run { script } => {
             let mut resp = Response::new().add_attribute("borrower", "run");
-            for step in script {
-                if step.swallow {
+            for (idx, step) in script.into_iter().enumerate() {
+                if !step.swallow && idx > 0 && matches!(step.act, Act::Repay { .. }) {
+                    let inner = Step { act: step.act.clone(), swallow: false };
+                    resp = resp.add_message(WasmMsg::Execute { contract_addr: env.contract.address.to_string(), msg: to_json_binary(&BorrowerExec::Lazy { step: Box::new(inner) })?, funds: vec![] });
+                } else if step.swallow {
                     let id = NEXT_ID.load(deps.storage)?;
                     NEXT_ID.save(deps.storage, &(id + 1))?;
                     let inner = Step { act: step.act.clone(), swallow: false };
@@ -272,12 +282,21 @@ pub enum HookRxExec {
     EpochChangedHook(white_whale_std::epoch_manager::hooks::EpochChangedHookMsg),
     /// fault injection: while set, every notification is answered with an error
     SetFail { fail: bool },
+    /// this (possibly registered) hook contract itself asks the epoch manager for the next epoch
+    Poke { manager: String },
 }
 fn hookrx_execute(deps: DepsMut, _env: Env, _info: MessageInfo, msg: HookRxExec) -> StdResult<Response> {
     let msg = match msg {
         HookRxExec::SetFail { fail } => {
             HOOK_FAILS.save(deps.storage, &fail)?;
             return Ok(Response::new());
+        }
+        HookRxExec::Poke { manager } => {
+            return Ok(Response::new().add_message(WasmMsg::Execute {
+                contract_addr: manager,
+                msg: to_json_binary(&white_whale_std::epoch_manager::epoch_manager::ExecuteMsg::CreateEpoch {})?,
+                funds: vec![],
+            }));
         }
         HookRxExec::EpochChangedHook(msg) => msg,
     };
